@@ -232,6 +232,7 @@ func ruleC19Param(p *Prog, a *Anchors, r *Report) {
 		}
 		return isNilConst(stripConv(c.Common().Args[0]))
 	}
+	nilMarker := ssa.Value(ssa.NewConst(nil, types.Typ[types.UntypedNil]))
 	type site struct {
 		f     *ssa.Function
 		call  ssa.CallInstruction
@@ -301,6 +302,7 @@ func ruleC19Param(p *Prog, a *Anchors, r *Report) {
 		evaluated := false
 		for _, v := range srcs {
 			switch {
+			case v == nilMarker:
 			case isNilConst(v):
 				// ApplyFilter itself substitutes; the parameter of the public API
 			case isNilValue(v):
@@ -311,6 +313,46 @@ func ruleC19Param(p *Prog, a *Anchors, r *Report) {
 				var c *ssa.Call
 				if ok {
 					c, _ = ex.Tuple.(*ssa.Call)
+				}
+				// the evaluation may live in a small helper (evaluateParam(ctx)): accept when the helper is handed
+				// this function's ctx and every value it returns is Evaluate(<its ctx>) or AsValue(nil)
+				if c != nil && c.Common().StaticCallee() != nil && p.InPkg(c.Common().StaticCallee()) && ctxp != nil {
+					h := c.Common().StaticCallee()
+					hctx := paramOfType(h, types.NewPointer(a.ExecCtx))
+					passes := false
+					for i, arg := range c.Common().Args {
+						if arg == ssa.Value(ctxp) && hctx != nil && i < len(h.Params) && h.Params[i] == hctx {
+							passes = true
+						}
+					}
+					okH := passes
+					sawEval, sawNil := false, false
+					for _, ret := range returnsOf(h) {
+						rv := res(ret, 0)
+						switch {
+						case isNilConst(rv):
+						case isNilValue(rv):
+							sawNil = true
+						default:
+							e2, isEx := rv.(*ssa.Extract)
+							var c2 *ssa.Call
+							if isEx {
+								c2, _ = e2.Tuple.(*ssa.Call)
+							}
+							if c2 != nil && c2.Common().IsInvoke() && c2.Common().Method.Name() == "Evaluate" && len(c2.Common().Args) == 1 && c2.Common().Args[0] == ssa.Value(hctx) {
+								sawEval = true
+							} else {
+								okH = false
+							}
+						}
+					}
+					if okH && sawEval {
+						evaluated = true
+						if sawNil {
+							srcs = append(srcs, nilMarker)
+						}
+						continue
+					}
 				}
 				if c == nil || !c.Common().IsInvoke() || c.Common().Method.Name() != "Evaluate" {
 					bad = "parameter value " + p.VN(v) + " is not the result of evaluating the parameter expression here"
@@ -336,7 +378,7 @@ func ruleC19Param(p *Prog, a *Anchors, r *Report) {
 		// nil substitution present
 		hasNil := false
 		for _, v := range srcs {
-			if isNilValue(v) {
+			if isNilValue(v) || v == nilMarker {
 				hasNil = true
 			}
 		}
